@@ -12,7 +12,9 @@ Extension: pivoted Cholesky pstrf (op P: rank, matrix left behind, pivot vector)
 cholesky_decomposition::update (op U) are modelled (C02PstrfModel.v, C02SemiModel.v, C02UpdModel.v) and run next to the C++ on
 every run: EXACTLY over Q on inputs built so that every square root is taken of the square of a power of two (reference runs in
 the generator accept/reject candidates), and over IEEE doubles (the same extracted functions instantiated with OCaml floats, 1e-9)
-on B B^T / random SPD inputs whose pivot order is separated from rounding noise."""
+on B B^T / random SPD inputs whose pivot order is separated from rounding noise.  potrf is compared through potrf_blocked2 (all four
+(triangle, storage) pairs blocked: left-looking leaf C02BlkModel.potrf_rec, right-looking leaf C02RlModel.potrf_rec_rl), the LU class
+with matrix right-hand sides through C02LUMatModel.lu_solve_m (two blocked trsm)."""
 import os, sys, re, math
 from fractions import Fraction as Fr
 sys.path.insert(0, os.path.dirname(os.path.abspath(__file__)))
